@@ -73,7 +73,12 @@ func Exec(spec *props.Spec, t *sim.Tape, tier string, detail bool) *eng.Result {
 	r := eng.NewRun(spec.ID, t, tier, detail)
 	r.Guard(func() {
 		// Globals every run depends on, all derived from the tape.
-		rand.Seed(int64(t.U32(sim.LMisc)) + 1)
+		// Engine multi leaves the global math/rand source unseeded: a seeded
+		// source is mutex-protected and would add happens-before edges
+		// between tasks at every mask draw (masks never reach a transcript).
+		if rs := int64(t.U32(sim.LMisc)) + 1; spec.Engine != "multi" {
+			rand.Seed(rs)
+		}
 		pol := [...]int{simctl.PolicyLIFO, simctl.PolicyLIFO, simctl.PolicyTape, simctl.PolicyFresh}[t.Int(sim.LPool, 4)]
 		simctl.Reset(pol, 0xA5)
 		simctl.Choose = func(n int) int { return t.Int(sim.LPool, n) }
@@ -88,6 +93,14 @@ func Exec(spec *props.Spec, t *sim.Tape, tier string, detail bool) *eng.Result {
 	r.Res.Probes["pool_reuse_hit"] += simctl.Counter(simctl.CReuse)
 	r.Res.Probes["pool_canary_checked"] += simctl.Counter(simctl.CCanaryChecked)
 	return r.Finish()
+}
+
+// tapeCap is the number of draws a run of spec may make.
+func tapeCap(spec *props.Spec) int {
+	if spec.Engine == "multi" {
+		return 1 << 21
+	}
+	return sim.TapeCap
 }
 
 func poolProp(id string) string {
@@ -109,7 +122,7 @@ func runBatch(spec *props.Spec, j *Job) *BatchOut {
 		}
 		seed := SeedOf(j.Base, j.Prop, i)
 		detail := len(out.Samples) < j.Samples
-		res := Exec(spec, sim.NewTape(seed), j.Tier, detail)
+		res := Exec(spec, sim.NewTapeCap(seed, tapeCap(spec)), j.Tier, detail)
 		out.Executed++
 		for k, v := range res.Probes {
 			out.Probes[k] += v
